@@ -281,10 +281,24 @@ def warm(nodes, names):
         pass
 
 
+def make_nodes(names):
+    """a name written 'a#7' stands for an element named a created with the explicit id '7' (ids are user-suppliable and
+    JSON import preserves them, so two distinct nodes may carry the same id)"""
+    out = []
+    for nm in names:
+        if "#" in nm:
+            base, ident = nm.split("#", 1)
+            out.append(Node(base, id=ident))
+        else:
+            out.append(Node(nm))
+    return out
+
+
 def rebuild(names, path):
     Node.store.clear()
-    nodes = [Node(nm) for nm in names]
-    m = Model(names)
+    nodes = make_nodes(names)
+    m = Model([nm.split("#")[0] for nm in names])
+    m.raw_names = names
     for op in path:
         real_apply(nodes, op)
         m.apply(op)
@@ -299,7 +313,7 @@ def check_step(names, path, op):
     if d:
         raise Violation("replayed-state-differs", d, case)
     before = [list(n.children) for n in nodes]
-    warm(nodes, names)
+    warm(nodes, m.names)
     r1 = real_apply(nodes, op)
     r2 = m.apply(op)
     tag = op[0] + ("-positional" if op[0] == "shift" and not op[4] else "")
@@ -614,6 +628,8 @@ def machine_shard(ctx, shard):
 
 
 def run(ctx):
+    # a universe in which two same-named nodes also share their id
+    bfs(ctx, ["a#1", "a#1", "a#2", "b#3"], 10 ** 6)
     if ctx.quick:
         bfs(ctx, ["a", "a", "b", "b"], 10 ** 6)
         bfs(ctx, ["a", "a", "a", "b", "b"], 10 ** 6)
@@ -627,8 +643,8 @@ def run(ctx):
 def replay_history(names, history):
     """the state machine's run, step by step on one forest, without Hypothesis"""
     Node.store.clear()
-    nodes = [Node(nm) for nm in names]
-    m = Model(names)
+    nodes = make_nodes(names)
+    m = Model([nm.split("#")[0] for nm in names])
     for i, op in enumerate(history):
         before = [list(n.children) for n in nodes]
         r1 = real_apply(nodes, op)
